@@ -93,7 +93,12 @@ fn summ_float<T: F>(case: &Value, out: &mut Vec<Value>) {
         }
         "wsum_axis" | "wmean_axis" | "wvar_axis" | "wstd_axis" => {
             let ao = av.to_owned();
-            let w1: Array1<T> = wv.iter().cloned().collect();
+            // the weights as an owned 1-D array that is plain, reversed in memory (stride -1) or stepped (stride 2)
+            let w1: Array1<T> = match jstr(case, "wlay", "plain") {
+                "rev" => { let mut v: Vec<T> = wv.clone(); v.reverse(); Array1::from(v).slice_move(ndarray::s![..;-1]) }
+                "step" => { let mut v: Vec<T> = Vec::new(); for x in &wv { v.push(*x); v.push(T::f(-9.0)); } Array1::from(v).slice_move(ndarray::s![..;2]) }
+                _ => wv.iter().cloned().collect(),
+            };
             // whole-array routine applied to each lane with the same weights (C18)
             let lanes: Vec<Array1<T>> = ao.lanes(Axis(axis)).into_iter().map(|l| l.to_owned()).collect();
             let per_lane = |f: &dyn Fn(&Array1<T>) -> T| -> Vec<Value> { lanes.iter().map(|l| bits3(f(l).g())).collect() };
@@ -352,7 +357,8 @@ pub fn gen(seed: u64, count: usize, tier: &str, params: &Params) -> Vec<Value> {
                 if w.iter().sum::<i64>() == 0 { w[0] = 1; }
                 let bexp = if matches!(stat, "mean" | "wmean" | "wmean_axis") && !f32ty { *rng.pick(&[-1i64, -1, 10, 20, 30]) } else { -1 };
                 cases.push(json!({"ev": "summ", "stat": stat, "ty": ty, "r": r, "w": w, "S": if stat == "harmonic" || stat.ends_with("_int") { 1 } else { 4 }, "WS": *rng.pick(&[1i64, 4]),
-                                  "bexp": bexp, "qe": if f32ty { 8 } else { 14 }, "tol": 2, "shape": shape, "axis": axis, "lay1": lay1, "lay2": lay2}));
+                                  "bexp": bexp, "qe": if f32ty { 8 } else { 14 }, "tol": 2, "shape": shape, "axis": axis, "lay1": lay1, "lay2": lay2,
+                                  "wlay": *rng.pick(&["plain", "rev", "step"])}));
             }
             "c07" => {
                 let stat = *rng.pick(&["wvar", "wvar", "wstd", "moment", "moment", "moments", "skew", "kurt", "wvar_axis", "wstd_axis"]);
@@ -371,7 +377,8 @@ pub fn gen(seed: u64, count: usize, tier: &str, params: &Params) -> Vec<Value> {
                         if w.iter().sum::<i64>() < 2 { w[wl - 1] = 2; }
                         let bexp = if f32ty { -1 } else { *rng.pick(&[-1i64, -1, 10, 20]) };
                         cases.push(json!({"ev": "summ", "stat": stat, "ty": ty, "r": r, "w": w, "S": 4, "WS": 1, "d": rng.range(0, 2), "bexp": bexp,
-                                          "qe": if f32ty { 6 } else { 12 }, "tol": 2, "shape": shape, "axis": axis, "lay1": lay1, "lay2": lay2}));
+                                          "qe": if f32ty { 6 } else { 12 }, "tol": 2, "shape": shape, "axis": axis, "lay1": lay1, "lay2": lay2,
+                                          "wlay": *rng.pick(&["plain", "rev", "step"])}));
                     }
                     _ => {
                         // moments: tiny integer data so that the exact numerators fit; large offsets for orders 2..4
